@@ -11,5 +11,11 @@ W6(adv, k) == CASE adv = "EF" -> 6
                 [] adv = "RK2" -> (IF k = 2 THEN 6 ELSE 0)
                 [] adv = "RK4" -> (CASE k = 1 -> 1 [] k = 2 -> 2 [] k = 3 -> 2 [] OTHER -> 1)
                 [] OTHER -> 0
+\* the one-parameter family of two-stage schemes of ladim/analytical.py (get_velocity2): c_2 = s, b = (1 - 1/(2s), 1/(2s))
+\* with s = sn/sd:  2 sn b_1 = 2 sn - sd,  2 sn b_2 = sd  ; order 2 for every s: b_1 + b_2 = 1, b_2 c_2 = 1/2
+Fam2B1(sn, sd) == 2 * sn - sd
+Fam2B2(sn, sd) == sd
+Fam2Order2(sn, sd) == /\ Fam2B1(sn, sd) + Fam2B2(sn, sd) = 2 * sn             \* sum b = 1  (times 2 sn)
+                      /\ Fam2B2(sn, sd) * sn * 2 = 2 * sn * sd                  \* b_2 c_2 = 1/2  (times 2 sn * 2 sd)
 Order(adv) == CASE adv = "EF" -> 1 [] adv = "RK2" -> 2 [] adv = "RK4" -> 4 [] OTHER -> 0
 =============================================================================
